@@ -144,10 +144,10 @@ def random_program(rng: random.Random) -> list[dict[str, Any]]:
     return [blk(0)]
 
 
-def run_once(prog: list[dict[str, Any]], prefix: list[int], policy: Any, target: int | None, after_idles: int = 0) -> dict[str, Any]:
+def run_once(prog: list[dict[str, Any]], prefix: list[int], policy: Any, target: int | None, after_idles: int = 0, after_turns: int = 0) -> dict[str, Any]:
     root = logging.getLogger()
     out: dict[str, Any] = {}
-    inj = Injector(target, after_idles)
+    inj = Injector(target, after_idles, after_turns)
 
     async def main(loop: Any) -> None:
         W: World = loop.W
@@ -188,12 +188,12 @@ def run_once(prog: list[dict[str, Any]], prefix: list[int], policy: Any, target:
     return out
 
 
-def judge(R: Recorder, prog: list[dict[str, Any]], out: dict[str, Any], k: int, base_choices: list[int], after_idles: int = 0) -> None:
+def judge(R: Recorder, prog: list[dict[str, Any]], out: dict[str, Any], k: int, base_choices: list[int], after_idles: int = 0, after_turns: int = 0) -> None:
     W: World = out["W"]
     inj: Injector = out["inj"]
-    rec = {"program": prog, "choices": base_choices, "k": k, "after_idles": after_idles}
-    if after_idles:
-        k = (k, after_idles)  # type: ignore[assignment]
+    rec = {"program": prog, "choices": base_choices, "k": k, "after_idles": after_idles, "after_turns": after_turns}
+    if after_idles or after_turns:
+        k = (k, after_idles, after_turns)  # type: ignore[assignment]
     phase = inj.where or "?"
     R.distinct("injection_points", (prog, base_choices, k))
     if not inj.fired:
@@ -292,6 +292,15 @@ def inject_all(R: Recorder, prog: list[dict[str, Any]], rng: random.Random, nsch
                     break
                 R.count("delayed_injections")
                 judge(R, prog, out, k, choices, after_idles=j)
+            # ... and a few loop iterations after one of those moments: what an idle released (a resource finishing its cleanup, a
+            # child ending) is on its way to the victim through done-callbacks, the victim is about to be woken up
+            for j in (0, 1, 2, 3):
+                for m in (1, 2, 3, 4):
+                    out = run_once(prog, choices, "first", k, after_idles=j, after_turns=m)
+                    if not out["inj"].fired:
+                        continue
+                    R.count("injections_delayed_by_loop_iterations")
+                    judge(R, prog, out, k, choices, after_idles=j, after_turns=m)
 
 
 # ---- check_cancellation -----------------------------------------------------------------------------------
@@ -487,8 +496,8 @@ def replay(R: Recorder, rec: dict[str, Any]) -> None:
         out = run_once(rec["program"], rec["choices"], "first", None)
         print(out["status"], out.get("victim"), out["W"].events)
         return
-    out = run_once(rec["program"], rec["choices"], "first", rec["k"], after_idles=rec.get("after_idles", 0))
-    judge(R, rec["program"], out, rec["k"], rec["choices"], after_idles=rec.get("after_idles", 0))
+    out = run_once(rec["program"], rec["choices"], "first", rec["k"], after_idles=rec.get("after_idles", 0), after_turns=rec.get("after_turns", 0))
+    judge(R, rec["program"], out, rec["k"], rec["choices"], after_idles=rec.get("after_idles", 0), after_turns=rec.get("after_turns", 0))
     print("victim:", out.get("victim"), "phase:", out["inj"].where, "delivered:", out["inj"].delivered)
     print("events:", out["W"].events)
     print("children:", {n: ("cancelled" if t.cancelled() else "done") if t.done() else "pending" for n, t in out["W"].tasks.items()})
